@@ -12,11 +12,11 @@ structure WrkCounters (s : RegState) : Prop where
 def wrkRec (r : Rec) (now h : Nat) : Rec := { r with key := h, subTime := now }
 
 def wrkAfterKeep (s : RegState) (m : RegMeta) (now h : Nat) (r : Rec) : RegState :=
-  { s with recs := AL.insert s.recs (m.id, h) (wrkRec r now h)
+  { s with recs := insertRec s.recs (m.id, h) (wrkRec r now h)
            regs := AL.insert s.regs m.id { m with last := h, num := m.num + 1, lowest := if m.lowest = 0 then h else m.lowest } }
 
 def wrkAfterPrune (s : RegState) (m : RegMeta) (now h : Nat) (r : Rec) : RegState :=
-  let recs2 := erase (AL.insert s.recs (m.id, h) (wrkRec r now h)) (m.id, m.lowest)
+  let recs2 := erase (insertRec s.recs (m.id, h) (wrkRec r now h)) (m.id, m.lowest)
   { s with recs := recs2
            regs := AL.insert s.regs m.id { m with last := h, num := m.num, lowest := RegState.minOr0 (keysOf recs2 m.id) } }
 
@@ -55,19 +55,19 @@ theorem wrkKeep_regInv (s : RegState) (m : RegMeta) (id now h : Nat) (r : Rec)
   constructor
   · exact nodup_insert _ _ _ hi.nodupRegs
   · exact hi.nodupLimits
-  · exact nodup_insert _ _ _ hi.nodupRecs
+  · exact sorted_insertRec _ _ _ hi.sortedRecs
   · intro id' m' hm'
-    simp only [wrkAfterKeep, find_insert] at hm'
+    simp only [wrkAfterKeep, find_insert, find_insertRec] at hm'
     split at hm'
     · rename_i he; cases hm'; subst he; exact ⟨rfl, (hi.idsBelowNext _ _ hm).2⟩
     · exact hi.idsBelowNext id' m' hm'
   · intro id' m' hm'
-    simp only [wrkAfterKeep, find_insert] at hm'
+    simp only [wrkAfterKeep, find_insert, find_insertRec] at hm'
     split at hm'
     · rename_i he; subst he; exact ⟨l, hl, hl1⟩
     · exact hi.hasLimit id' m' hm'
   · intro id' k r' hr
-    simp only [wrkAfterKeep, find_insert] at hr
+    simp only [wrkAfterKeep, find_insert, find_insertRec] at hr
     split at hr
     · rename_i he; cases hr
       obtain ⟨rfl, rfl⟩ := Prod.mk.inj he
@@ -85,18 +85,19 @@ theorem wrkPrune_regInv (s : RegState) (m : RegMeta) (id now h : Nat) (r : Rec)
   have hid : m.id = id := (hi.idsBelowNext id m hm).1
   subst hid
   obtain ⟨l, hl, hl1⟩ := hi.hasLimit _ m hm
-  have hnd := nodup_insert s.recs (m.id, h) (wrkRec r now h) hi.nodupRecs
+  have hsr := sorted_insertRec s.recs (m.id, h) (wrkRec r now h) hi.sortedRecs
+  have hnd := nodup_of_sorted _ hsr
   constructor
   · exact nodup_insert _ _ _ hi.nodupRegs
   · exact hi.nodupLimits
-  · exact nodup_erase _ _ hnd
+  · exact sorted_erase _ _ hsr
   · intro id' m' hm'
-    simp only [wrkAfterPrune, find_insert] at hm'
+    simp only [wrkAfterPrune, find_insert, find_insertRec] at hm'
     split at hm'
     · rename_i he; cases hm'; subst he; exact ⟨rfl, (hi.idsBelowNext _ _ hm).2⟩
     · exact hi.idsBelowNext id' m' hm'
   · intro id' m' hm'
-    simp only [wrkAfterPrune, find_insert] at hm'
+    simp only [wrkAfterPrune, find_insert, find_insertRec] at hm'
     split at hm'
     · rename_i he; subst he; exact ⟨l, hl, hl1⟩
     · exact hi.hasLimit id' m' hm'
@@ -104,7 +105,7 @@ theorem wrkPrune_regInv (s : RegState) (m : RegMeta) (id now h : Nat) (r : Rec)
     simp only [wrkAfterPrune] at hr
     by_cases hk : (m.id, m.lowest) = (id', k)
     · rw [← hk, find_erase_eq _ _ hnd] at hr; cases hr
-    · rw [find_erase_ne _ _ _ hk, find_insert] at hr
+    · rw [find_erase_ne _ _ _ hk, find_insertRec] at hr
       split at hr
       · rename_i he; cases hr
         obtain ⟨rfl, rfl⟩ := Prod.mk.inj he
@@ -125,7 +126,8 @@ theorem wrkKeep_counters (s : RegState) (m : RegMeta) (id now h : Nat) (r : Rec)
   have hfresh := fresh_above_last s hi _ h m hm hh
   have hkeys : ∀ id', keysOf (wrkAfterKeep s m now h r).recs id' =
       if id' = m.id then keysOf s.recs id' ++ [h] else keysOf s.recs id' :=
-    fun id' => keysOf_insert_fresh s.recs m.id h _ id' hfresh
+    fun id' => keysOf_insertRec_fresh s.recs m.id h _ id' hi.sortedRecs
+      (fun k hk => by have := (keys_le_last s hi _ m hm k hk).2; omega)
   have hbnd := keys_le_last s hi _ m hm
   constructor
   · intro id'
@@ -140,7 +142,7 @@ theorem wrkKeep_counters (s : RegState) (m : RegMeta) (id now h : Nat) (r : Rec)
     · exact hc.sorted id'
   · intro id' m' hm'
     rw [hkeys]
-    simp only [wrkAfterKeep, find_insert] at hm'
+    simp only [wrkAfterKeep, find_insert, find_insertRec] at hm'
     split at hm'
     · rename_i he; subst he; cases hm'
       simp [hc.num _ m hm]
@@ -150,7 +152,7 @@ theorem wrkKeep_counters (s : RegState) (m : RegMeta) (id now h : Nat) (r : Rec)
       exact hc.num id' m' hm'
   · intro id' m' hm'
     rw [hkeys]
-    simp only [wrkAfterKeep, find_insert] at hm'
+    simp only [wrkAfterKeep, find_insert, find_insertRec] at hm'
     split at hm'
     · rename_i he; subst he; cases hm'
       simp only [if_true]
@@ -167,7 +169,7 @@ theorem wrkKeep_counters (s : RegState) (m : RegMeta) (id now h : Nat) (r : Rec)
       simp only [this, if_false]
       exact hc.lowest id' m' hm'
   · intro id' m' hm'
-    simp only [wrkAfterKeep, find_insert] at hm'
+    simp only [wrkAfterKeep, find_insert, find_insertRec] at hm'
     show m'.num ≤ (s.limitOf id').1
     split at hm'
     · rename_i he; subst he; cases hm'; exact hroom
@@ -180,7 +182,8 @@ theorem wrkPrune_counters (s : RegState) (m : RegMeta) (id now h : Nat) (r : Rec
   have hid : m.id = id := (hi.idsBelowNext id m hm).1
   subst hid
   have hfresh := fresh_above_last s hi _ h m hm hh
-  have hnd := nodup_insert s.recs (m.id, h) (wrkRec r now h) hi.nodupRecs
+  have hsr := sorted_insertRec s.recs (m.id, h) (wrkRec r now h) hi.sortedRecs
+  have hnd := nodup_of_sorted _ hsr
   have hbnd := keys_le_last s hi _ m hm
   have hlowest := hc.lowest _ m hm
   -- the key list is non-empty and starts with `lowest`
@@ -193,8 +196,8 @@ theorem wrkPrune_counters (s : RegState) (m : RegMeta) (id now h : Nat) (r : Rec
   have hkeys : ∀ id', keysOf (wrkAfterPrune s m now h r).recs id' =
       if id' = m.id then rest ++ [h] else keysOf s.recs id' := by
     intro id'
-    show keysOf (erase (AL.insert s.recs (m.id, h) (wrkRec r now h)) (m.id, m.lowest)) id' = _
-    rw [keysOf_erase _ _ _ _ hnd, keysOf_insert_fresh _ _ _ _ _ hfresh]
+    show keysOf (erase (insertRec s.recs (m.id, h) (wrkRec r now h)) (m.id, m.lowest)) id' = _
+    rw [keysOf_erase _ _ _ _ hnd, keysOf_insertRec_fresh _ _ _ _ _ hi.sortedRecs (fun k hk => by have := (hbnd k hk).2; omega)]
     split
     · rename_i he; subst he
       simp only [if_true, hk, List.cons_append]
@@ -215,7 +218,7 @@ theorem wrkPrune_counters (s : RegState) (m : RegMeta) (id now h : Nat) (r : Rec
     · exact hc.sorted id'
   · intro id' m' hm'
     rw [hkeys]
-    simp only [wrkAfterPrune, find_insert] at hm'
+    simp only [wrkAfterPrune, find_insert, find_insertRec] at hm'
     split at hm'
     · rename_i he; subst he; cases hm'
       have := hc.num _ m hm
@@ -227,21 +230,21 @@ theorem wrkPrune_counters (s : RegState) (m : RegMeta) (id now h : Nat) (r : Rec
       exact hc.num id' m' hm'
   · intro id' m' hm'
     rw [hkeys]
-    simp only [wrkAfterPrune, find_insert] at hm'
+    simp only [wrkAfterPrune, find_insert, find_insertRec] at hm'
     split at hm'
     · rename_i he; subst he; cases hm'
       simp only [if_true]
       have := hkeys m.id
       simp only [if_true] at this
-      show RegState.minOr0 (keysOf (erase (AL.insert s.recs (m.id, h) (wrkRec r now h)) (m.id, m.lowest)) m.id) = _
-      rw [show keysOf (erase (AL.insert s.recs (m.id, h) (wrkRec r now h)) (m.id, m.lowest)) m.id = rest ++ [h] from this]
+      show RegState.minOr0 (keysOf (erase (insertRec s.recs (m.id, h) (wrkRec r now h)) (m.id, m.lowest)) m.id) = _
+      rw [show keysOf (erase (insertRec s.recs (m.id, h) (wrkRec r now h)) (m.id, m.lowest)) m.id = rest ++ [h] from this]
       exact minOr0_sorted _ hsorted'
     · rename_i hne
       have : ¬ id' = m.id := fun e => hne e.symm
       simp only [this, if_false]
       exact hc.lowest id' m' hm'
   · intro id' m' hm'
-    simp only [wrkAfterPrune, find_insert] at hm'
+    simp only [wrkAfterPrune, find_insert, find_insertRec] at hm'
     show m'.num ≤ (s.limitOf id').1
     split at hm'
     · rename_i he; subst he; cases hm'; exact hc.withinLimit _ m hm
@@ -317,24 +320,24 @@ theorem wrk_register_inv (s : RegState) (now : Nat) (mk nm gn ty : String) (o : 
   constructor
   · exact hi.cnt.sorted
   · intro id' m' hm'
-    simp only [RegState.registered, find_insert] at hm'
+    simp only [RegState.registered, find_insert, find_insertRec] at hm'
     show m'.num = (keysOf s.recs id').length
     split at hm'
     · rename_i he; subst he; cases hm'; simp [hnokeys]
     · exact hi.cnt.num id' m' hm'
   · intro id' m' hm'
-    simp only [RegState.registered, find_insert] at hm'
+    simp only [RegState.registered, find_insert, find_insertRec] at hm'
     show m'.lowest = (keysOf s.recs id').head?.getD 0
     split at hm'
     · rename_i he; subst he; cases hm'; simp [hnokeys]
     · exact hi.cnt.lowest id' m' hm'
   · intro id' m' hm'
-    simp only [RegState.registered, find_insert] at hm'
+    simp only [RegState.registered, find_insert, find_insertRec] at hm'
     split at hm'
     · cases hm'; simp
     · rename_i hne
       have := hi.cnt.withinLimit id' m' hm'
-      simpa [RegState.registered, RegState.limitOf, find_insert, hne] using this
+      simpa [RegState.registered, RegState.limitOf, find_insert, find_insertRec, hne] using this
 
 theorem wrk_purchase_inv (s : RegState) (id n : Nat) (o : AddrTok) (s' : RegState) (can : Nat)
     (hi : WrkInv s) (h : s.purchase id n o = .ok (s', can)) : WrkInv s' := by
